@@ -30,7 +30,7 @@ m = {
         "guard": "verif",
         "enable": "go build tag `verif` (-tags verif): the only hook files are the comment-only contract files <pkg>/verif_contracts.go, read by owvc; they contain no declarations",
         "baseline_off_cmd": BASE,
-        "source_commits": json.load(open('/verif/tools/hook_commits.json')),
+        "source_commits": __import__('subprocess').check_output(['git','-C','/repo','log','--format=%h','--reverse','--','*verif_contracts.go']).decode().split(),
         "add_only": True,
     },
     "engines": [{
